@@ -13,6 +13,15 @@ import random
 from .. import core, findlib as fl, gen_find_c02 as g
 
 ATOL = 0.05
+NEGDIAG_TAG = "negative-diagonal-orthorhombic-cell"
+ATOLS = [0.05, 0.05, 0.05, 0.05, 0.001, 0.01, 0.2]
+
+
+def hint_kind(h):
+    if tuple(h) == (None, None, None):
+        return "none"
+    k = "%d-given" % (3 - list(h).count(None))
+    return k + ("+index0" if 0 in h else "")
 RULE = ("periodic structures with 1-3 planted rigid copies (per-atom perturbation <= atol/8) of 11 patterns (1-5 atoms; "
         "asymmetric, symmetric, planar, collinear, chiral) in orthorhombic / triclinic(+/- tilt) / arbitrarily rotated "
         "cells, 20 % of them with smallest width only 3-30 % above diameter+2*atol; poses random / identity / 90 / 180 deg / "
@@ -20,7 +29,12 @@ RULE = ("periodic structures with 1-3 planted rigid copies (per-atom perturbatio
         "(thorough: the complete grid x 5 poses x 11 patterns x 4 cell kinds); decoys: mirror images (chiral patterns "
         "only; a mirror image of an achiral pattern is planted as an occurrence), near misses with one distance off by "
         "3-5 atol, lone same-element atoms (occurrences for the one-atom pattern). Every structure is validated by an "
-        "independent brute-force enumeration. Non-trivial = a planted copy straddles at least one cell face or the "
+        "independent brute-force enumeration. Argument space: atol in {0.001, 0.01, 0.05, 0.2} (copies and decoys scale with "
+        "it), 35 % of the random and 25 % of the grid cases searched WITH a valid explicit hint triple (partial hints, all "
+        "three, index 0 in every position; copies then perturbed by atol/40), 20 % also called with "
+        "return_positions_and_quats=False; sequences in one process (orthorhombic cell -> triclinic cell with the same "
+        "diagonal -> the first again on the same objects; structure -> its supercell -> structure). Separate small stream for the KNOWN FINDING: diagonal cells with one or two "
+        "negative entries (3 quick / 20 thorough). Non-trivial = a planted copy straddles at least one cell face or the "
         "structure contains a decoy.")
 
 
@@ -50,9 +64,27 @@ def inp_of(case, atol=ATOL, hints=(None, None, None), seed=0):
             "planted": [list(k) for k in case["planted"]], "info": case.get("info", {})}
 
 
+def run_plain(s, p, atol, hints=(None, None, None), seed=0):
+    """the search called the way most users call it: return_positions_and_quats=False (only the index tuples)"""
+    import random as _random
+    import numpy as np
+    import mofun.mofun as mm
+    try:
+        _random.seed(seed)
+        np.random.seed(seed % (2 ** 32))
+        with core.quiet():
+            idx = mm.find_pattern_in_structure(s, p, axisp1_idx=hints[0], axisp2_idx=hints[1], opoint_idx=hints[2],
+                                               atol=atol)
+        return {"ok": {"idx": [[int(i) for i in t] for t in idx]}}
+    except Exception as e:  # noqa
+        return {"err": "error:" + type(e).__name__, "msg": str(e)[:200]}
+
+
 def run_real(inp):
     s = fl.mk_structure(inp["elems"], inp["pos"], inp["cell"])
     p = g.mk_pattern(inp)
+    if inp.get("plain"):
+        return run_plain(s, p, inp["atol"], hints=tuple(inp["hints"]), seed=inp.get("seed", 0))
     return fl.run_find(s, p, inp["atol"], hints=tuple(inp["hints"]), seed=inp.get("seed", 0))
 
 
@@ -88,18 +120,25 @@ def grid_tasks(patterns=None, cells=None, poses=None, fracs=None):
 
 
 def grid_case(seed, task):
+    """-> (case | None, atol, hints): a quarter of the grid cases is searched with explicit hints, a fifth with another atol"""
     pname, ck, pose, fr = task
     rng = random.Random("c02-grid-%s-%s" % (seed, task))
     nd = rng.choice([0, 0, 1])
-    return g.planted(rng, pname, ck, [(pose, list(fr))], atol=ATOL, ndecoy=nd, tight=rng.random() < 0.25)
+    tight = rng.random() < 0.25
+    hinted = rng.random() < 0.25
+    atol = rng.choice(ATOLS) if rng.random() < 0.2 else ATOL
+    case = g.planted(rng, pname, ck, [(pose, list(fr))], atol=atol, ndecoy=nd, tight=tight,
+                     perturb_div=40.0 if hinted else 8.0)
+    hints = g.pick_hints(rng, case["pattern"]["pos"]) if (hinted and case is not None) else (None, None, None)
+    return case, atol, hints
 
 
 def _grid_worker(args):
     seed, task = args
-    case = grid_case(seed, task)
+    case, atol, hints = grid_case(seed, task)
     if case is None:
         return task, None, None, None
-    inp = inp_of(case)
+    inp = inp_of(case, atol=atol, hints=hints)
     res, bad = one(inp)
     return task, (g.crossings(case), case["info"]["tight"], nontrivial(case)), bad, (inp if bad else core.sha(inp))
 
@@ -127,6 +166,67 @@ def run_grid(ctx, tasks, procs):
             ctx.fail(bad, inp, required="reported key set == planted key set, each once", tags=["grid"])
 
 
+# ------------------------------------------------------------------ searches in sequence (module-level state, caches)
+
+def sequences(ctx, rng, n):
+    """Several searches in ONE process on related inputs, each compared with what an evaluation that knows nothing of
+    the others gives (the planted keys / the independent enumeration):
+      A  an orthorhombic cell, then a triclinic cell with the SAME diagonal, then the first one again (same objects);
+      B  a structure, then its supercell (built here, expected keys from the brute-force enumeration), then the
+         structure again."""
+    import numpy as np
+    done = 0
+    while done < n:
+        atol = rng.choice(ATOLS)
+        first = g.random_case(rng, atol=atol, cell_kind="ortho", tight=False)
+        if first is None:
+            continue
+        steps = [("first", first)]
+        if rng.random() < 0.5:
+            pname = first["info"]["pattern"]
+            cf = g.tilted_twin(rng, first["cell"])
+            d = fl.diam(fl.pattern_json(pname)["pos"])
+            if min(fl.perp_widths(cf)) <= d + 2 * atol + 0.5:
+                continue
+            twin = g.planted(rng, pname, "tri+", [(rng.choice(g.POSES), None) for _ in range(rng.randint(1, 2))],
+                             atol=atol, ndecoy=rng.randint(0, 1), cell=cf)
+            if twin is None:
+                continue
+            twin["info"]["cell"] = "tri(same diagonal)"
+            steps.append(("tilted-twin", twin))
+            kind = "ortho->tri-same-diagonal->ortho"
+        else:
+            if len(first["elems"]) > 16:
+                continue
+            dims = rng.choice([(2, 1, 1), (1, 2, 1), (1, 1, 2), (2, 2, 1)])
+            se, sp, sc = g.replicate_indep(first["elems"], first["pos"], first["cell"], dims)
+            ins, amb = g.brute_occurrences(se, sp, sc, first["pattern"]["elems"], first["pattern"]["pos"], atol)
+            if amb:
+                continue
+            sup = {"elems": se, "pos": sp, "cell": sc, "pattern": first["pattern"], "planted": sorted(ins),
+                   "info": dict(first["info"], cell="supercell%s" % (dims,))}
+            steps.append(("supercell", sup))
+            kind = "unit->supercell->unit"
+        steps.append(("first-again", first))
+        done += 1
+        ctx.count("sequence:" + kind)
+        objs = {}
+        for name, case in steps:
+            key = id(case)
+            if key not in objs:          # the repeated search runs on the SAME Atoms objects
+                objs[key] = (fl.mk_structure(case["elems"], case["pos"], case["cell"]), g.mk_pattern(case))
+            s_, p_ = objs[key]
+            sd = rng.randrange(1 << 30)
+            res = fl.run_find(s_, p_, atol, seed=sd) if rng.random() < 0.7 else run_plain(s_, p_, atol, seed=sd)
+            inp = inp_of(case, atol=atol, seed=sd)
+            inp["sequence"] = {"kind": kind, "step": name}
+            ctx.case(inp, nontrivial=True)
+            bad = oracle_complete(inp["planted"], res)
+            if bad:
+                ctx.fail("in the sequence %s, step %s: %s" % (kind, name, bad), inp, observed=res.get("ok", res.get("err")),
+                         required="every search of the sequence reports exactly the planted groups", tags=["sequence", kind])
+
+
 # ------------------------------------------------------------------ the check
 
 def tie(ctx, pairs):
@@ -139,6 +239,7 @@ def tie(ctx, pairs):
             ctx.compare("find", inp, iv, mv)
             continue
         # disagreement: decided by floating-point rounding on a threshold?
+        # (findlib's views are order-free and the oracle is keyed by tuple: enumeration order does not matter)
         _, stable = fl.stable_under_atol(ctx.lean, op)
         if not stable:
             ctx.ambiguous += 1
@@ -154,21 +255,36 @@ def run(ctx, oracle_only=False, scale=1):
     n_tie = 0 if oracle_only else ctx.n(220, 700)
     made = 0
     while made < n_rand:
-        case = g.random_case(rng, atol=ATOL)
+        # the argument space: tolerance (copies / decoys scale with it), explicit hints, plain call
+        atol = rng.choice(ATOLS)
+        hinted = rng.random() < 0.35
+        case = g.random_case(rng, atol=atol, perturb_div=40.0 if hinted else 8.0)
         if case is None:
             ctx.count("generator:rejected")
             continue
         made += 1
-        inp = inp_of(case, seed=rng.randrange(1 << 30))
+        hints = g.pick_hints(rng, case["pattern"]["pos"]) if hinted else (None, None, None)
+        inp = inp_of(case, atol=atol, hints=hints, seed=rng.randrange(1 << 30))
         res, bad = one(inp)
         ctx.case(inp, nontrivial=nontrivial(case))
         for t in tags_of(case):
             ctx.count(t)
+        ctx.count("atol:%g" % atol)
+        ctx.count("hints:" + hint_kind(hints))
         if bad:
             ctx.fail(bad, inp, observed=res.get("ok", res.get("err")), required="reported key set == planted key set, each once",
-                     tags=tags_of(case))
+                     tags=tags_of(case) + ["hints:" + hint_kind(hints)])
         elif len(pairs) < n_tie and "ok" in res:
             pairs.append((inp, case, res))
+        if rng.random() < 0.2:
+            pin = dict(inp, plain=True, seed=rng.randrange(1 << 30))
+            pres, pbad = one(pin)
+            ctx.case(pin, nontrivial=nontrivial(case))
+            ctx.count("call:return_positions_and_quats=False")
+            if pbad:
+                ctx.fail(pbad, pin, observed=pres.get("ok", pres.get("err")),
+                         required="reported key set == planted key set, each once", tags=tags_of(case) + ["plain-call"])
+    sequences(ctx, rng, ctx.n(12, 120) * scale)
     # boundary grid: complete in the thorough tier, a random sample in the quick tier
     tasks = grid_tasks()
     if ctx.tier == "quick" and scale == 1:
@@ -179,13 +295,34 @@ def run(ctx, oracle_only=False, scale=1):
         ctx.exhaustive = False   # the grid is enumerated completely, the space of structures is not finite
     procs = 1 if len(tasks) <= 2000 else max(1, min(8, (os.cpu_count() or 2) // 2))
     run_grid(ctx, tasks, procs)
+    # known finding C02-negative-diagonal-orthorhombic-cell: diagonal cells with one or two NEGATIVE entries.
+    # Only "planted occurrence not reported" is attributed to the finding (exactly its tag); anything else that goes
+    # wrong in this stream (a group twice, a group that is no occurrence, an exception) stays an untagged failure.
+    # The model follows the code's box test literally (it also selects nothing), so these cases go through the tie.
+    n_neg, made = ctx.n(3, 20), 0
+    while made < n_neg:
+        case = g.negdiag_case(rng, atol=ATOL)
+        if case is None:
+            ctx.count("generator:rejected")
+            continue
+        made += 1
+        inp = inp_of(case, seed=rng.randrange(1 << 30))
+        res, bad = one(inp)
+        ctx.case(inp, nontrivial=True)
+        ctx.count("stream:negative-diagonal-cell")
+        if bad:
+            known = bad.startswith("occurrence not reported")
+            ctx.fail(bad, inp, observed=res.get("ok", res.get("err")), required="reported key set == planted key set, each once",
+                     tags=[NEGDIAG_TAG] if known else tags_of(case))
+        if not oracle_only and "ok" in res:
+            pairs.append((inp, case, res))
     if not oracle_only:
         # a few grid cases through the model too
         for t in rng.sample(tasks, min(len(tasks), ctx.n(30, 200))):
-            case = grid_case(ctx.seed, t)
+            case, atol, hints = grid_case(ctx.seed, t)
             if case is None:
                 continue
-            inp = inp_of(case)
+            inp = inp_of(case, atol=atol, hints=hints)
             res, bad = one(inp)
             if not bad:
                 pairs.append((inp, case, res))
